@@ -1,6 +1,6 @@
 (** C14 -- property file: the full statement, what is proved (closed by [exact]), the instantiation obligation on
-    the facts regenerated from /repo, non-vacuity examples, refutations of the full statement on the faithful model,
-    Print Assumptions. *)
+    the facts regenerated from /repo, non-vacuity examples, Print Assumptions.  The refutations of the full statement
+    on the faithful model (one per known finding) are in props/C14_refuted.v. *)
 From SF Require Import Base.Val C14.Writer C14.WriterProof.
 From Gen Require Import C14Facts.
 Open Scope string_scope.
@@ -21,6 +21,16 @@ Definition C14_faults_full : Prop := faults_full gen_cfg duckdb_residue.
 Definition C14_full : Prop := property_full gen_cfg duckdb_residue.
 
 (** * What is proved *)
+
+(** everything that is proved of [C14_full], in one statement (the pieces follow) *)
+Theorem C14_partial :
+  (forall ops, hist_ok gen_cfg duckdb_residue m_init ops = true ->
+     s_run s_init ops = (abs (fst (m_run gen_cfg duckdb_residue m_init ops)), snd (m_run gen_cfg duckdb_residue m_init ops)))
+  /\ C14_catalog_full
+  /\ (forall st o d, is_write o = true -> op_df o = Some d -> df_bad d = true ->
+        atomic_at duckdb_residue st o = true -> fst (m_step gen_cfg duckdb_residue st o) = st).
+Proof. exact (property_partial gen_cfg duckdb_residue gen_cfg_ok). Qed.
+Print Assumptions C14_partial.
 
 (** modes + round trip + reads: every history (any length, any targets) inside the decidable domain [hist_ok] *)
 Theorem C14_partial_modes :
